@@ -3,6 +3,7 @@ package main
 import (
 	"bytes"
 	"fmt"
+	"os"
 	"os/exec"
 	"strconv"
 	"strings"
@@ -182,12 +183,16 @@ func runTextSolver(ts textSolver, text string, timeoutMS int) (Res, string) {
 	cmd.Stdin = strings.NewReader(text)
 	out, _ := cmd.CombinedOutput()
 	s := string(out)
+	// output is in script order: an (error before the check-sat answer means the
+	// solver did not see the whole problem (inconclusive). After "unsat" the only
+	// error possible is the one for the unconditional get-value.
+	if strings.HasPrefix(s, "unsat") {
+		return Unsat, s
+	}
 	if strings.Contains(s, "(error") {
 		return Unknown, s
 	}
 	switch {
-	case strings.HasPrefix(s, "unsat"):
-		return Unsat, s
 	case strings.HasPrefix(s, "sat"):
 		return Sat, s
 	}
@@ -237,6 +242,10 @@ func parseValues(out string, names []string) Model {
 // textCheck decides the conjunction with the text back ends, in order, until one answers.
 func textCheck(conj []*Term, vars []*Term, timeoutMS int, log *[]textQuery) (Res, Model) {
 	text, names := smtText(conj, vars)
+	if d := os.Getenv("GOSYM_DUMPQ"); d != "" {
+		dumpSeq++
+		os.WriteFile(fmt.Sprintf("%s/q%d.smt2", d, dumpSeq), []byte(text), 0o644)
+	}
 	hard := false
 	for _, c := range conj {
 		if c.hard {
@@ -262,3 +271,5 @@ func textCheck(conj []*Term, vars []*Term, timeoutMS int, log *[]textQuery) (Res
 	}
 	return Unknown, nil
 }
+
+var dumpSeq int
